@@ -777,6 +777,19 @@ pub enum RejectCase {
 
 pub struct Rejections;
 
+use crate::case::{Bnd, RangeSpec};
+/// Ranges of the range-filtered opens through which the "refused when opening" clauses are
+/// re-checked: everything, one id, and ranges that select nothing (incl. start > end).
+const REFUSAL_RANGES: [RangeSpec; 7] = [
+    RangeSpec(Bnd::Unb, Bnd::Unb),
+    RangeSpec(Bnd::Inc(0), Bnd::Inc(0)),
+    RangeSpec(Bnd::Inc(5), Bnd::Exc(5)),
+    RangeSpec(Bnd::Inc(7), Bnd::Exc(3)),
+    RangeSpec(Bnd::Exc(7), Bnd::Inc(7)),
+    RangeSpec(Bnd::Unb, Bnd::Exc(0)),
+    RangeSpec(Bnd::Inc(1000), Bnd::Unb),
+];
+
 /// Minimal archive assembled by hand: header | root | meta | leaves | data.
 pub fn assemble(ic_header: u8, root: &[u8], meta: &[u8], leaves: &[u8], data: &[u8], n: (u64, u64, u64)) -> Vec<u8> {
     let mut h = SpecHeader { ic: ic_header, tc: 1, tt: 1, clustered: 1, ..SpecHeader::default() };
@@ -953,6 +966,11 @@ impl Scenario for Rejections {
                 let disk = SimDisk::new(img.clone(), &pol);
                 let r = sut::open(disk, face)?;
                 ensure!(r.is_err(), "C19:non-object-metadata-accepted", "archive whose metadata is `{}` opened successfully", crate::scen_life::clip(&non_object_json(kind)));
+                for range in REFUSAL_RANGES {
+                    let r = sut::open_partial(SimDisk::new(img.clone(), &pol), face, range)?;
+                    ctx.bump("refusals_checked_through_partial_opens", 1);
+                    ensure!(r.is_err(), "C19:non-object-metadata-accepted-partially", "archive whose metadata is `{}` opened successfully through a range-filtered open with {range:?}", crate::scen_life::clip(&non_object_json(kind)));
+                }
                 // the same archive with object metadata opens (the rejection is due to the shape)
                 let meta_ok = spec::compress(ic, b"{\"a\":1}").expect("oracle codec");
                 let img_ok = assemble(ic, &root, &meta_ok, &[], &data, (es.iter().map(|e| u64::from(e.run_length)).sum(), n, n));
@@ -981,8 +999,14 @@ impl Scenario for Rejections {
                     let meta: &[u8] = if with_meta { b"{}" } else { b"" };
                     let n = es.len() as u64;
                     let img = assemble(0, &root, meta, &[], &data, (n, n, n));
-                    let r = sut::open(SimDisk::plain(img), face)?;
+                    let r = sut::open(SimDisk::plain(img.clone()), face)?;
                     ensure!(r.is_err(), "C19:unknown-compression-opened", "an archive declaring internal compression 'unknown' opened successfully (metadata section: {with_meta})");
+                    // range-filtered opens are opens too, whatever the range selects (also nothing)
+                    for range in REFUSAL_RANGES {
+                        let r = sut::open_partial(SimDisk::plain(img.clone()), face, range)?;
+                        ctx.bump("refusals_checked_through_partial_opens", 1);
+                        ensure!(r.is_err(), "C19:unknown-compression-opened-partially", "an archive declaring internal compression 'unknown' opened successfully through a range-filtered open with {range:?} (metadata section: {with_meta})");
+                    }
                 }
             }
         }
